@@ -29,7 +29,7 @@ pub fn runs(property: &str, tier: Tier) -> u64 {
         "C26" => (960, 20000),
         "C25" => (2400, 100000),
         "C24" => (640, 8000),
-        "C23" => (192, 3000),
+        "C23" => (192, 800),
         "C19" => (320, 8000),
         _ => (160, 3000),
     };
